@@ -360,9 +360,8 @@ def observed(c):
 
 
 def emit(cases):
-    """Coq source evaluating all cases; returns (body, index maps)"""
+    """Coq sources evaluating all cases: list of (suite, keys, file body)"""
     src = C.COQ_CASE_HEADER + "From Raven Require Import Base.GoStrB64 Spec.Json Model.Auth Spec.AuthSpec Spec.AuthObs.\n"
-    maps = {}
     groups = {"direct": [], "ident": [], "login": [], "plain": [], "sasl": []}
     for i, c in enumerate(cases):
         if "obs" not in c:
@@ -394,13 +393,18 @@ def emit(cases):
             groups[s].append((i, "(mk_pcase %s %s %s %s %s %s %s)" % (C.coq_bool(c["tls"]), cs(c["domain"]), cs(c["authzid"]), cs(c["blob"]), oc, it, obs)))
     ev = {"direct": ("dcase", "dcase_eval"), "ident": ("icase", "icase_eval"), "login": ("wcase", "wcase_eval"),
           "plain": ("pcase", "pcase_eval"), "sasl": ("scase", "scase_eval")}
+    files = []
     for s, items in groups.items():
-        maps[s] = [k for k, _ in items]
         ty, f = ev[s]
-        src += "Definition %s_cases : list %s := [\n%s].\n" % (s, ty, ";\n".join(t for _, t in items))
-        src += "Definition %s_bad := Eval vm_compute in bad_rows %s %s_cases.\nPrint %s_bad.\n" % (s, f, s, s)
-    return src, maps
+        for k in range(0, len(items), COQ_CHUNK):
+            part = items[k:k + COQ_CHUNK]
+            body = src + "Definition cases : list %s := [\n%s].\n" % (ty, ";\n".join(t for _, t in part))
+            body += "Definition bad := Eval vm_compute in bad_rows %s cases.\nPrint bad.\n" % f
+            files.append((s, [key for key, _ in part], body))
+    return files
 
+
+COQ_CHUNK = 260
 
 ROW = re.compile(r"\((\d+), \((true|false), (true|false), (\d+)\)\)")
 
@@ -412,16 +416,18 @@ def evaluate(chk, cases, tagname):
     if crashes:
         chk.broken_obligation("driver scenario failed in the C04 suite (%s): %s" % (tagname, crashes[0]))
         return None
-    src, maps = emit(cases)
-    rc, log = C.coq_eval_cases("C04" + tagname, src)
-    if rc != 0:
-        chk.broken_obligation("in-Coq evaluation of the C04 cases failed:\n" + log[-2500:])
-        return None
+    files = emit(cases)
+    from concurrent.futures import ThreadPoolExecutor
+    with ThreadPoolExecutor(max_workers=8) as ex:
+        outs = list(ex.map(lambda t: C.coq_eval_cases("C04%s_%d" % (tagname, t[0]), t[1][2]), enumerate(files)))
     bad = []
-    for s, keys in maps.items():
-        txt = C.parse_coq_list_out(log, s + "_bad")
+    for (s, keys, _), (rc, log) in zip(files, outs):
+        if rc != 0:
+            chk.broken_obligation("in-Coq evaluation of the C04 cases (%s) failed:\n%s" % (s, log[-2500:]))
+            return None
+        txt = C.parse_coq_list_out(log, "bad")
         if txt is None:
-            chk.broken_obligation("could not read %s_bad from the Coq output:\n%s" % (s, log[-1500:]))
+            chk.broken_obligation("could not read the evaluation of suite %s from the Coq output:\n%s" % (s, log[-1500:]))
             return None
         for m in ROW.finditer(txt):
             k = keys[int(m.group(1))]
@@ -510,23 +516,10 @@ def run(chk):
         if c["suite"] in ("login", "plain") and "corpus" not in c:
             pass
 
-    # the in-Coq evaluation is split so that one file stays below ~2500 cases
-    bad = []
-    per = 2400
     flat_sizes = [len(c["users"]) if c["suite"] == "ident" else 1 for c in cases]
-    start, acc, k = 0, 0, 0
-    parts = []
-    for i, sz in enumerate(flat_sizes):
-        if acc + sz > per and i > start:
-            parts.append(cases[start:i])
-            start, acc = i, 0
-        acc += sz
-    parts.append(cases[start:])
-    for k, part in enumerate(parts):
-        b = evaluate(chk, part, "_%d" % k)
-        if b is None:
-            return
-        bad += b
+    bad = evaluate(chk, cases, "")
+    if bad is None:
+        return
 
     # ---- coverage
     n_eval = sum(flat_sizes)
